@@ -186,3 +186,16 @@ func SortedKeys(d map[string]int) []string {
 }
 
 func Pick[T any](r *rand.Rand, xs ...T) T { return xs[r.Intn(len(xs))] }
+
+// LiveTimer is what the substitute AfterFunc hands to the library: a real *time.Timer (due in a thousand hours, with an
+// empty function) standing for the registered callback, so that the library's Stop() on it is seen.  FireTimer runs
+// the callback the way a real timer would: only if nobody has stopped (or already fired) it.
+func LiveTimer() *time.Timer { return time.AfterFunc(1000*time.Hour, func() {}) }
+
+func FireTimer(t *time.Timer, f func()) bool {
+	if t == nil || t.Stop() {
+		f()
+		return true
+	}
+	return false
+}
